@@ -94,7 +94,7 @@ package ggql
 //@   check panic {C03}
 //@   check lock {C20}
 //@   requires root != nil
-//@   requires[unlocked]{C20} !held(root.subLock)
+//@   requires[unlocked]{C20} forall m int {held[m]} :: !held[m]
 //@   requires regOk(root.subscriptions)
 //@   requires distinctSubscribers(root.subscriptions)
 //@   requires distinctEntries(root.subscriptions)
@@ -110,6 +110,7 @@ package ggql
 //@   -- phase 1: match, resolve the subscription's own selection on the event, send, collect failures
 //@   loop 0: invariant[bounds] rangeindex+1 <= old(len(root.subscriptions))
 //@           invariant[held]{C20} held(root.subLock)
+//@           invariant[only-registry-lock]{C12,C20} onlyRegistryLock(root)
 //@           invariant[registry-unchanged] root.subscriptions == old(root.subscriptions) && (forall k int {root.subscriptions[k]} :: 0 <= k && k < len(root.subscriptions) ==> root.subscriptions[k] == old(root.subscriptions[k]))
 //@           invariant[count] cnt == old(cntUpTo(root.subscriptions, rangeindex+1, id))
 //@           invariant[sent-once] forall j int {old(root.subscriptions[j])} :: 0 <= j && j <= rangeindex && old(root.subscriptions[j].sub).Match(id) ==> #send[old(root.subscriptions[j].sub)] == old(#send[root.subscriptions[j].sub]) + 1
